@@ -98,7 +98,7 @@ def build(engine, pkg=".", race=False, shim=False, porcupine=False, tags="verif"
     return out, time.time() - t0
 
 
-def run_child(binary, test, env, timeout_s, tag, extra_args=None, cwd=None):
+def run_child(binary, test, env, timeout_s, tag, extra_args=None, cwd=None, wrap=None):
     """Run one child; returns dict(rc, records, log, progress)."""
     sc = scratch()
     out = os.path.join(sc, tag + ".jsonl")
@@ -113,7 +113,7 @@ def run_child(binary, test, env, timeout_s, tag, extra_args=None, cwd=None):
     os.makedirs(tmpd, exist_ok=True)
     e["TMPDIR"] = tmpd
     e["VERIF_PROGRESS"] = prog
-    cmd = ["timeout", "-s", "QUIT", "-k", "20", str(int(timeout_s)), binary, "-test.run", "^%s$" % test, "-test.count=1", "-test.timeout=0"]
+    cmd = ["timeout", "-s", "QUIT", "-k", "20", str(int(timeout_s))] + (wrap or []) + [binary, "-test.run", "^%s$" % test, "-test.count=1", "-test.timeout=0"]
     if extra_args:
         cmd += extra_args
     with open(log, "w") as lf:
